@@ -1,0 +1,73 @@
+//! Verification hooks, compiled only with `--cfg swiftness_verif` (off by default).
+//!
+//! * an event sink recording every transcript operation of the current thread, and
+//! * a work meter (`tick`) called from loops whose bound can come from a proof; when a limit is
+//!   set and exceeded it unwinds with an [`Overwork`] payload so a harness can stop the run.
+//!
+//! Nothing here changes the behaviour of the library when no recorder / limit is installed.
+extern crate std;
+
+use alloc::vec::Vec;
+use starknet_crypto::Felt;
+use std::cell::{Cell, RefCell};
+
+#[derive(Debug, Clone, PartialEq)]
+pub enum Event {
+    New { digest: Felt },
+    Absorb { values: Vec<Felt>, digest_after: Felt },
+    Squeeze { digest: Felt, counter: Felt, out: Felt },
+}
+
+#[derive(Debug, Clone, Copy, PartialEq)]
+pub struct Overwork {
+    pub site: &'static str,
+    pub ticks: u64,
+}
+
+std::thread_local! {
+    static LOG: RefCell<Option<Vec<Event>>> = const { RefCell::new(None) };
+    static TICKS: Cell<u64> = const { Cell::new(0) };
+    static LIMIT: Cell<u64> = const { Cell::new(u64::MAX) };
+}
+
+/// Starts (or restarts) recording transcript events on this thread.
+pub fn start_recording() {
+    LOG.with(|l| *l.borrow_mut() = Some(Vec::new()));
+}
+
+/// Stops recording and returns the events seen since `start_recording`.
+pub fn take_events() -> Vec<Event> {
+    LOG.with(|l| l.borrow_mut().take().unwrap_or_default())
+}
+
+pub fn record(event: Event) {
+    LOG.with(|l| {
+        if let Some(log) = l.borrow_mut().as_mut() {
+            log.push(event);
+        }
+    });
+}
+
+/// Resets the work meter and installs a limit (`u64::MAX` = unlimited).
+pub fn reset_ticks(limit: u64) {
+    TICKS.with(|t| t.set(0));
+    LIMIT.with(|l| l.set(limit));
+}
+
+pub fn ticks() -> u64 {
+    TICKS.with(|t| t.get())
+}
+
+/// Accounts `n` units of work at `site`.
+pub fn tick(site: &'static str, n: u64) {
+    let total = TICKS.with(|t| {
+        let v = t.get().saturating_add(n);
+        t.set(v);
+        v
+    });
+    if total > LIMIT.with(|l| l.get()) {
+        // Disarm first so that unwinding code that ticks again does not double-panic.
+        LIMIT.with(|l| l.set(u64::MAX));
+        std::panic::panic_any(Overwork { site, ticks: total });
+    }
+}
